@@ -356,3 +356,21 @@ func TestFinding29_TemplateVHtmlDoesNotDragSiblings(t *testing.T) {
 		t.Fatalf("a falsy v-if branch after <template v-html> is rendered: %q err=%v", out, err)
 	}
 }
+
+// row 31 — C06.R2 (recorded as an open finding in session 2, repaired in session 3)
+func TestFinding31_NestedComponentGetsItsOwnSlotContent(t *testing.T) {
+	files := map[string]string{
+		"page.vuego": `<template include="a.vuego">OUTER</template>`,
+		"a.vuego":    `<div><template include="b.vuego">INNER</template><slot></slot></div>`,
+		"b.vuego":    `<b><slot></slot></b>`,
+	}
+	out, err := renderFS(t, files, "page.vuego", map[string]any{})
+	if got := strings.Join(strings.Fields(out), ""); err != nil || got != "<div><b>INNER</b>OUTER</div>" {
+		t.Fatalf("got %q err=%v", got, err)
+	}
+	files["a.vuego"] = `<div><template include="b.vuego"><i><slot></slot></i></template></div>`
+	out, err = renderFS(t, files, "page.vuego", map[string]any{})
+	if got := strings.Join(strings.Fields(out), ""); err != nil || got != "<div><b><i>OUTER</i></b></div>" {
+		t.Fatalf("forwarding: got %q err=%v", got, err)
+	}
+}
